@@ -800,7 +800,11 @@ func (w *wk) famSchnorrEdge(n int, csv [][]string) {
 			// the accumulator. By construction the expected verdict is "reject"; every 64th case (and every acceptance or
 			// panic) goes through the reference as well.
 			rxs := [][]byte{b32(refec.Gx), pk, b32(refec.ScalarBaseMult(new(big.Int).Lsh(big.NewInt(1), 128)).X)}
-			for i := 0; i < 360; i++ {
+			burst := 360
+			if w.run.Thorough() {
+				burst = 45 // the thorough tier runs ~250 times as many cases of this family
+			}
+			for i := 0; i < burst; i++ {
 				rx := rxs[i%len(rxs)]
 				m := w.rng.Bytes(32)
 				e := new(big.Int).Mod(refec.FromBytes(refec.TaggedHash("BIP0340/challenge", rx, pk, m)), N)
